@@ -434,6 +434,9 @@ pub fn replay(fctx: &fuzz::Ctx, bin: &str, cases: &[Value], seed: u64, reps: usi
         for _ in 0 .. reps {
             rep.evaluations += 1;
             if c["kind"] == "good" {
+                // 64-bit identifiers: the full unsigned range for the text formats; below 2^63 for BSON, which has no unsigned
+                // 64-bit integer (D15)
+                CAP_U63.with(|x| x.set(c["fmt"].as_str().map_or(false, |f| f.starts_with("bson"))));
                 good_case(fctx, bin, c, &mut rng, rep);
             } else {
                 bad_case(bin, c, rep);
